@@ -1049,6 +1049,7 @@ def _fmt(o):
 def evaluate(spec, hist, tier="thorough", obs=None):
     """Run one history in both worlds.  Returns dict(trivial, render=[(ob, a, b)], rows=[...], handed_bad, step_exc).
     obs: the observations asked at the end (default: observations(spec, tier))."""
+    gc_family_history = obs is not None and len(hist) <= 5
     obs = observations(spec, tier) if obs is None else list(obs)
     A = World(spec)
     try:
@@ -1065,7 +1066,9 @@ def evaluate(spec, hist, tier="thorough", obs=None):
                 break
         if handed_bad is None:
             handed_bad = A.changed_below()
-        below_res = A.observe_below()
+        # (declared reduction: not after the 4/5-step histories of the garbage-collection family, which are about what a
+        # collection removes, observed at the root)
+        below_res = [] if gc_family_history else A.observe_below()
         step_exc = A.step_exc
     finally:
         A.close()
@@ -1283,9 +1286,9 @@ def select_trees(tier, seed):
             for t in r.sample(c, min(1, len(c))):
                 plan.append((t, "quick", 2, "full"))
                 plan.append((t, "quick", 5, "gc"))
-        # the garbage-collection family on every root+leaf tree, and seeded longer histories with several collections
+        # the garbage-collection family on every root+leaf tree (the seeded longer histories with several collections run in
+        # the thorough tier only)
         plan += [(t, "quick", 5, "gc") for t in d1]
-        plan += [(t, "quick", 7, ("gcsample", 6)) for t in d1]
         return plan
     d3 = trees_of_depth(3)
     plan += [(t, "thorough", 3, "full") for t in d0]
@@ -1575,13 +1578,13 @@ def run(tier="quick", seed=0):
 
     ntrees = len(seen_tree)
     if tier == "quick":
-        scope = "all 12 leaves alone (histories <= 3 steps, exhaustive), all 204 root+leaf trees (<= 2 steps exhaustive; 100 seeded 3-step histories on one tree per root kind), 1 seeded root+middle+leaf tree per middle kind (<= 2 steps exhaustive); sampled-histories also: 6 seeded 7-step histories per root+leaf tree over the garbage-collection alphabet (renders incl. a vertical resize, 3 ways of dropping held canvases + gc.collect(), mutators of non-root nodes, keys, mouse)"
+        scope = "all 12 leaves alone (histories <= 3 steps, exhaustive), all 204 root+leaf trees (<= 2 steps exhaustive; 100 seeded 3-step histories on one tree per root kind), 1 seeded root+middle+leaf tree per middle kind (<= 2 steps exhaustive)"
     else:
         scope = "all 12 leaves alone (<= 3 steps exhaustive over the full alphabet, 3000 seeded 4-step), all 204 root+leaf trees (<= 2 steps full alphabet exhaustive; 3 steps over the reduced alphabet exhaustive on a set covering every root and leaf kind, 250 seeded on the others; 80 seeded 4-step), 150 seeded depth-2 trees (<= 2 exhaustive, 150 seeded 3-step) and 100 seeded depth-3 trees (<= 2 exhaustive, 100 seeded 4-step); sampled-histories also: 80 seeded 8-step histories per root+leaf tree over the garbage-collection alphabet (renders incl. a vertical resize, 3 ways of dropping held canvases + gc.collect(), every mutator, keys, mouse)"
     bound = (
         f"{len(KINDS)} widget kinds ({len(LEAVES)} leaves, {len(INNER)} decorations/containers) in chain-shaped trees with fixed siblings, {ntrees} trees: {scope}; "
         "steps = render(2 sizes x focus) / rows / every public mutator of every node / keys and mouse at the root / drop held canvases + gc.collect(); "
-        "after the root observations of the first run, every still-cached canvas of a grammar-named descendant is compared with that descendant's render after CanvasCache.clear(); "
+        "after the root observations of the first run (not in the gc-histories family), every still-cached canvas of a grammar-named descendant is compared with that descendant's render after CanvasCache.clear(); "
         f"each history observed at its end by {4 if tier == 'quick' else 5} renders (+{1 if tier == 'quick' else 2} rows for flow roots) in two runs (cache as-is / CanvasCache.clear() first)"
     )
     gc_bound = (
